@@ -148,20 +148,36 @@ Theorem C12_tparams_roundtrip : forall ps, Forall wf_param ps -> parse (marshal 
 Proof. exact parse_marshal. Qed.
 Print Assumptions C12_tparams_roundtrip.
 
-(** The record: ClientOverride is taken from the extension's own cached encoding, the byte string
-    uTLS writes into the ClientHello. Equal byte for byte; a peer parsing it reads the recorded
-    and advertised limits of the list. *)
-Theorem C12_record_equals_wire : forall o ps, override_bytes o ps = wire_bytes o ps.
-Proof. exact record_equals_wire. Qed.
+(** The connection's own record of its parameters equals the bytes it sent, FIELD BY FIELD: what
+    wire.PopulateFromUQUIC stores ([record_of]: protocol defaults, then every integer-valued parameter of
+    the typed list read from its encoding, the disable_active_migration flag) is exactly what a peer
+    reads ([read_wire]: parse the bytes, RFC 9000 18.2 defaults) from the extension bytes -- for every
+    well-formed list and every GREASE draw of the marshaling. All thirteen fields: the ten limits,
+    ack_delay_exponent, max_ack_delay, disable_active_migration. *)
+Theorem C12_record_equals_wire : forall o ps,
+  (forall id b, vwf (zlen (o id b))) -> Forall wf_param ps ->
+  read_wire (wire_bytes o ps) = Some (record_of ps).
+Proof. exact record_equals_wire_fields. Qed.
 Print Assumptions C12_record_equals_wire.
 
-Theorem C12_record_equals_wire_limits : forall o ps,
-  (forall id b, vwf (zlen (o id b))) -> Forall wf_param ps ->
-  exists l,
-    parse (override_bytes o ps) = Some l /\ parse (wire_bytes o ps) = Some l /\
-    recorded (kv_of l) = recorded (kv_of ps) /\ advertised (kv_of l) = advertised (kv_of ps).
-Proof. exact record_equals_wire_limits. Qed.
-Print Assumptions C12_record_equals_wire_limits.
+(** Regression (the shape of PopulateFromUQUIC before the repair: no case for max_udp_payload_size and
+    ack_delay_exponent, zero instead of the protocol default for absent parameters): for the Chrome
+    parrot the record said max_udp_payload_size 0, active_connection_id_limit 0, ack_delay_exponent 0,
+    max_ack_delay 0 where the wire says 1472, 2, 3, 25. *)
+Example C12_old_shape_record_differs_from_wire_fields :
+  record_list (record_of_old (tparams_of advenf_spec_Chrome_146_IPv4)) =
+    [15728640; 6291456; 6291456; 6291456; 100; 103; 0; 65536; 30000; 0; 0; 0; 0] /\
+  record_list (read_list (tparams_of advenf_spec_Chrome_146_IPv4)) =
+    [15728640; 6291456; 6291456; 6291456; 100; 103; 2; 65536; 30000; 1472; 3; 25; 0].
+Proof. exact old_record_differs_from_wire. Qed.
+Print Assumptions C12_old_shape_record_differs_from_wire_fields.
+
+(** The byte strings: in the model ClientOverride IS the extension's cached encoding (that the code does
+    so is checked by the correspondence, observable o_override_ok, and the monitor
+    advenf/record-wire/override); this statement is definitional and named accordingly. *)
+Theorem C12_record_bytes_are_wire_bytes_by_construction : forall o ps, override_bytes o ps = wire_bytes o ps.
+Proof. exact record_bytes_are_wire_bytes_by_construction. Qed.
+Print Assumptions C12_record_bytes_are_wire_bytes_by_construction.
 
 (** Regression (old shape: the record was a second marshaling; utls re-draws the GREASE version
     of version_information at each): the byte strings could differ. *)
